@@ -131,4 +131,8 @@ let handle op args =
      | MsgDec.DErr e -> ["e" ^ string_of_int (int_of_n (MsgDec.derr_code e))])
   | _ -> failwith ("msg: unknown op " ^ op)
 
+(* deeply nested inputs (10000 levels) recurse deeply in the extracted model; a larger minor heap
+   keeps the number of stack scans by the minor collector small *)
+let () = Gc.set { (Gc.get ()) with Gc.minor_heap_size = 8 * 1024 * 1024 }
+
 let () = register "msg" handle
